@@ -22,6 +22,7 @@ import (
 	"github.com/relex/slog-agent/base/bsupport"
 	"github.com/relex/slog-agent/buffer/hybridbuffer"
 	"github.com/relex/slog-agent/input/sysloginput"
+	"github.com/relex/slog-agent/orchestrate/obykeyset"
 	"github.com/relex/slog-agent/run"
 
 	"slogverif/hutil"
@@ -138,6 +139,49 @@ func clipStack(b []byte) string {
 	return strings.Join(out, "\n")
 }
 
+var siteAlias = map[string]string{
+	// '*' without the far-side boundary: the nil table is indexed from whichever end the transform scans
+	"textractspecial.matchValidCharsFromStart": "textractspecial.matchValidChars",
+	"textractspecial.matchValidCharsFromEnd":   "textractspecial.matchValidChars",
+}
+
+func hasDuplicate(list []string) bool {
+	seen := map[string]bool{}
+	for _, s := range list {
+		if seen[s] {
+			return true
+		}
+		seen[s] = true
+	}
+	return false
+}
+
+// classify names the root-cause class of a panic after acceptance. The frame is the default; where one cause surfaces
+// at several frames (metric registration happens wherever the first metric with the label set is created) the class
+// is named after the cause.
+func classify(site, detail string, conf run.Config) string {
+	if strings.Contains(detail, "duplicate label names") {
+		switch {
+		case hasDuplicate(conf.MetricKeys):
+			return "duplicate-metric-label:metricKeys"
+		case conf.Orchestration.Value != nil && hasDuplicate(orchestrationKeys(conf)):
+			return "duplicate-metric-label:orchestration.keys"
+		}
+		return "duplicate-metric-label:other"
+	}
+	if a, ok := siteAlias[site]; ok {
+		return a
+	}
+	return site
+}
+
+func orchestrationKeys(conf run.Config) []string {
+	if c, ok := conf.Orchestration.Value.(*obykeyset.Config); ok {
+		return c.Keys
+	}
+	return nil
+}
+
 // ---------------------------------------------------------------------------------------------------------------------
 
 // outcome of one evaluation
@@ -150,7 +194,11 @@ const (
 type evalOptions struct {
 	orchestrate bool // also run the real orchestrator + bufferer (background goroutines)
 	listen      bool // also construct and start the real input listener on an ephemeral port
+	twoTags     bool // build serializers / chunk makers for an empty tag too
 }
+
+// maxInstantiableFields: above this the harness does not try to allocate records (16 bytes per field and record)
+const maxInstantiableFields = 1 << 20
 
 // evaluate is the whole oracle: the loader returns; a rejection is an error value; an accepted configuration can be
 // instantiated completely and processes the record menu without a panic.
@@ -158,6 +206,11 @@ type evalOptions struct {
 // used to name the violation class.
 func evaluate(text string, nilHolder string, opt evalOptions) (outcome, key, msg string) {
 	caseSerial++
+	if os.Getenv("C16_TRACE") != "" {
+		t0 := time.Now()
+		fmt.Fprintf(os.Stderr, "trace evaluate start\n")
+		defer func() { fmt.Fprintf(os.Stderr, "trace evaluate end %v\n", time.Since(t0)) }()
+	}
 	dir := scratch()
 	path := filepath.Join(dir, "config.yml")
 	if err := os.WriteFile(path, []byte(text), 0o644); err != nil {
@@ -181,17 +234,25 @@ func evaluate(text string, nilHolder string, opt evalOptions) (outcome, key, msg
 		return outRejected, "", ""
 	}
 
+	if n := schema.GetMaxFields(); n > maxInstantiableFields {
+		return outViolated, "accepted-unbounded:schema.maxFields", fmt.Sprintf("schema/maxFields=%d was accepted: every log record allocates maxFields string headers (%d bytes per record); "+
+			"the agent cannot hold a single record (out of memory, or 'makeslice: len out of range' in base.newLogRecord)", n, uint64(n)*16)
+	}
+
 	// ---- accepted: phase A, everything that can be built and run on this goroutine
 	site, detail = catch(func() {
-		key, msg = instantiateInline(conf, schema)
+		key, msg = instantiateInline(conf, schema, opt.twoTags)
 	})
 	if site != "" {
-		return outViolated, "accepted-panic:" + site, "configuration was accepted by run.ParseConfigFile, then instantiation/processing panicked\n" + detail
+		return outViolated, "accepted-panic:" + classify(site, detail, conf), "configuration was accepted by run.ParseConfigFile, then instantiation/processing panicked\n" + detail
 	}
 	if key != "" {
 		return outViolated, key, msg
 	}
 
+	if os.Getenv("C16_TRACE") != "" {
+		fmt.Fprintf(os.Stderr, "trace phase A done\n")
+	}
 	// ---- phase B: the real orchestrator with pipelines and bufferers on a scratch root (background goroutines; a
 	// panic there kills the worker process and is attributed to this case by seq as "fatal:...")
 	if opt.orchestrate {
@@ -200,7 +261,7 @@ func evaluate(text string, nilHolder string, opt evalOptions) (outcome, key, msg
 		})
 		os.RemoveAll(filepath.Join(dir, fmt.Sprintf("buf%d", caseSerial)))
 		if site != "" {
-			return outViolated, "accepted-panic:" + site, "configuration was accepted by run.ParseConfigFile, then starting the orchestrator/pipelines panicked\n" + detail
+			return outViolated, "accepted-panic:" + classify(site, detail, conf), "configuration was accepted by run.ParseConfigFile, then starting the orchestrator/pipelines panicked\n" + detail
 		}
 		if key != "" {
 			return outViolated, key, msg
@@ -254,12 +315,19 @@ func newNopConsumer(_ logger.Logger, _ string, _ base.ChunkDecoder, args base.Ch
 
 var testTags = []string{"development.test", ""}
 
+// smallMenu: the records used for the second round of phase A and for phase B (few key sets => few pipelines)
+func smallMenu() []string {
+	return append(append([]string{}, recordMenu[:2]...), syntheticRecords[:6]...)
+}
+
 // instantiateInline mirrors test/pipeline.go: parser(s) with extractions, transforms, serializers, chunk makers,
 // forwarder objects (constructed, never started), then the record menu.
-func instantiateInline(conf run.Config, schema base.LogSchema) (key, msg string) {
+func instantiateInline(conf run.Config, schema base.LogSchema, twoTags bool) (key, msg string) {
 	mf := promreg.NewMetricFactory("c16a_", nil, nil)
 	nOutputs := len(conf.OutputBuffersPairs)
-	allocator := base.NewLogAllocator(schema, 1)
+	// reference counting exactly as run.Loader / LogProcessingWorker.onInput do it: one reference per output, one
+	// Release on DROP, one Release after each output
+	allocator := base.NewLogAllocator(schema, nOutputs)
 	inputCounter := base.NewLogInputCounter(mf.AddOrGetPrefix("input_", nil, nil))
 
 	var parsers []base.LogParser
@@ -285,7 +353,11 @@ func instantiateInline(conf run.Config, schema base.LogSchema) (key, msg string)
 		decoder    base.ChunkDecoder
 	}
 	var outputs []outputSet
-	for _, tag := range testTags {
+	tags := testTags
+	if !twoTags {
+		tags = tags[:1]
+	}
+	for _, tag := range tags {
 		for _, pair := range conf.OutputBuffersPairs {
 			outputs = append(outputs, outputSet{
 				serializer: pair.OutputConfig.Value.NewSerializer(logger.Root(), schema, tag),
@@ -319,27 +391,32 @@ func instantiateInline(conf run.Config, schema base.LogSchema) (key, msg string)
 			return
 		}
 		icounter.CountRecordPass(record)
-		for i, out := range outputs {
+		for i := len(outputs) - 1; i >= 0; i-- { // the outputs of the first tag last: they release the record
+			out := outputs[i]
 			stream := out.serializer.SerializeRecord(record)
-			if nOutputs > 0 {
-				procCounter.CountStream(i%nOutputs, stream)
+			if i < nOutputs {
+				allocator.Release(record)
 			}
+			procCounter.CountStream(i%nOutputs, stream)
 			out.chunkMaker.WriteStream(stream)
 		}
-		allocator.Release(record)
 	}
 
 	now := time.Unix(1600000000, 0)
 	for round := 0; round < 2; round++ { // twice: sampling transforms and caches behave differently on later records
+		menu := recordMenu
+		if round > 0 {
+			menu = smallMenu()
+		}
 		for _, p := range parsers {
-			for _, line := range recordMenu {
+			for _, line := range menu {
 				if rec := p.Parse([]byte(line), now); rec != nil {
 					process(rec)
 				}
 			}
 		}
 		// records that did not come through a parser: every field empty / every field set
-		for _, fill := range []string{"", "x", "2020-09-17T16:51:47.867Z", "a@b.cd [x] - y:1/2 \\n"} {
+		for _, fill := range []string{"", "x", "2020-09-17T16:51:47.867Z", "a@b.cd [x] - y:1/2 \\n", "abc abc"} {
 			rec, _ := allocator.NewRecord([]byte("0123456789"))
 			rec.RawLength = 10
 			rec.Timestamp = now
@@ -410,7 +487,7 @@ func instantiateOrchestrated(conf run.Config, schema base.LogSchema, root string
 			continue // reported by phase A
 		}
 		batch := make([]*base.LogRecord, 0, len(recordMenu))
-		for _, line := range recordMenu {
+		for _, line := range smallMenu() {
 			if rec := p.Parse([]byte(line), now); rec != nil {
 				batch = append(batch, rec)
 			}
